@@ -355,6 +355,7 @@ func (c *Ctx) checkConstantTables() {
 		}
 		return true
 	})
+	c.checkConstantListShapes()
 	for name := range want {
 		if !seen[name] {
 			c.violate("R14", "R14:constant:"+name, c.pos(constInit.Pos()), "Constant attribute "+name+" is not handled")
@@ -535,4 +536,64 @@ func (c *Ctx) checkCastDirect() {
 		return
 	}
 	c.decide(bad == "", "R14", "R14:cast:direct", firstNonEmpty(badSite, c.pos(oi.methods["Apply"].Pos())), fmt.Sprintf("%d converter instantiations, each applied directly to the asserted backing of the input", n), bad)
+}
+
+// checkConstantListShapes: in Constant.Init every tensor backed by a Go slice taken from the attribute
+// (value_floats, value_ints) states its 1-D shape explicitly as WithShape(len(that slice)): gorgonia
+// gives a one-element backing the scalar shape () when no shape is given, so [x] would come out rank 0.
+func (c *Ctx) checkConstantListShapes() {
+	oi := c.opByName("Constant")
+	if oi == nil || oi.methods["Init"] == nil {
+		return
+	}
+	init := oi.methods["Init"]
+	n := 0
+	for _, b := range init.Blocks {
+		for _, in := range b.Instrs {
+			nw, ok := in.(*ssa.Call)
+			if !ok {
+				continue
+			}
+			sc := nw.Common().StaticCallee()
+			if sc == nil || sc.Name() != "New" || fnPkgPath(sc) != pkgTensor || len(nw.Common().Args) != 1 {
+				continue
+			}
+			backing, shape := "", ""
+			for _, opt := range varargElems(nw.Common().Args[0]) {
+				oc, ok := opt.(*ssa.Call)
+				if !ok || oc.Common().StaticCallee() == nil {
+					continue
+				}
+				switch oc.Common().StaticCallee().Name() {
+				case "WithBacking":
+					a := unwrapConvKeepIface(oc.Common().Args[0])
+					if mi, ok := a.(*ssa.MakeInterface); ok {
+						a = mi.X
+					}
+					if _, isSlice := a.Type().Underlying().(*types.Slice); isSlice {
+						backing = c.term(a, 0)
+					}
+				case "WithShape":
+					els := varargElems(oc.Common().Args[0])
+					if len(els) == 1 {
+						if lc, ok := els[0].(*ssa.Call); ok {
+							if bi, ok := lc.Common().Value.(*ssa.Builtin); ok && bi.Name() == "len" {
+								shape = c.term(lc.Common().Args[0], 0)
+							}
+						}
+					}
+				}
+			}
+			if backing == "" {
+				continue
+			}
+			n++
+			c.decide(backing == shape, "R14", fmt.Sprintf("R14:constant:list-shape#%d", n), c.pos(nw.Pos()),
+				"the list becomes a 1-D tensor of explicit shape (len(list))",
+				fmt.Sprintf("a tensor backed by the attribute list %s is not given the shape (len(list)) (shape taken from %q): gorgonia gives a one-element backing the scalar shape (), so [x] comes out as a rank-0 tensor", backing, shape))
+		}
+	}
+	if n < 2 {
+		c.undecided("R14", "R14:constant:list-shape:floor", c.pos(init.Pos()), fmt.Sprintf("%d list-backed tensors found in Constant.Init (floor 2: value_floats, value_ints)", n))
+	}
 }
